@@ -92,7 +92,12 @@ class _It:
             LOG.append(["raise", self.k])
             raise ScriptExc(self.k)
         LOG.append(["next", self.k, d[3]])
-        return d[3]
+        return _tuplify(d[3])
+
+
+def _tuplify(v):
+    """iteration values for tuple loop targets come as nested lists in the script"""
+    return tuple(_tuplify(x) for x in v) if isinstance(v, list) else v
 
 
 def IT(k):
